@@ -2077,3 +2077,160 @@ func rulePriorityDomain(c *Ctx, r *Report) {
 		r.undecided(rule, "scan/priority-tests", "-", desc, "no range test that raises domain_error(operator_priority, _) found")
 	}
 }
+
+// ---------------------------------------------------------------------------
+// R-LOOP-ERR-CHECKED (C20, C10; added after seed C20j): "a non-callable clause" fails a load whichever goal of the
+// body is the culprit. In the clause compiler (the methods of clause), an error returned by a call made inside a
+// loop is looked at inside that loop: the extracted error has a use in a condition (or a return) within the cycle.
+// An error that is only stored and tested after the loop is overwritten by the next round - `h :- 1, a.` loads.
+func ruleLoopErrChecked(c *Ctx, r *Report) {
+	const rule = "R-LOOP-ERR-CHECKED"
+	desc := "an error produced in a loop of the clause compiler is examined in that loop"
+	n := 0
+	for _, fn := range c.LibFuncs() {
+		if funcPkg(fn) != c.Engine || recvNamed(fn) != "clause" || fn.Parent() != nil {
+			continue
+		}
+		k := 0
+		eachInstr(fn, func(in ssa.Instruction) {
+			call, ok := in.(*ssa.Call)
+			if !ok || !reachableFromSucc(call.Block(), call.Block()) {
+				return
+			}
+			res := call.Call.Signature().Results()
+			if res.Len() == 0 || !isErrorType(res.At(res.Len()-1).Type()) {
+				return
+			}
+			callee := call.Call.StaticCallee()
+			if callee == nil || !c.isLibPkg(funcPkg(callee)) {
+				return
+			}
+			var errV ssa.Value = call
+			if res.Len() > 1 {
+				errV = nil
+				for _, ref := range *call.Referrers() {
+					if e, ok := ref.(*ssa.Extract); ok && e.Index == res.Len()-1 {
+						errV = e
+					}
+				}
+			}
+			n++
+			k++
+			key := fmt.Sprintf("%s/%s#%d", fname(fn), c.stableFuncName(callee), k)
+			checked := false
+			if errV != nil {
+				for _, ref := range *errV.Referrers() {
+					switch x := ref.(type) {
+					case *ssa.BinOp:
+						// compared (with nil) in a block of the same cycle
+						b := x.Block()
+						if b == call.Block() || (reachableFromSucc(b, call.Block()) && reachableFromSucc(call.Block(), b)) {
+							checked = true
+						}
+					case *ssa.Return:
+						checked = true
+					}
+				}
+			}
+			if checked {
+				r.ok(rule, key, c.at(in), desc, "the error is compared or returned inside the loop", true)
+			} else {
+				r.bad(rule, key, c.at(in), desc, "the error of this call is not looked at before the next round of the loop overwrites it: a goal that is not callable is forgotten unless it is the last one (bar(X) :- 1, foo(X). loads as bar(X) :- foo(X).)")
+			}
+		})
+	}
+	if n == 0 {
+		r.undecided(rule, "scan/loop-calls", "-", desc, "no error-returning call inside a loop of the clause compiler")
+	}
+}
+
+// ---------------------------------------------------------------------------
+// R-SPEC-TABLE-INVERSE (C18; added after seed C18j): op/3 turns the specifier ATOM into the internal specifier with
+// one table, current_op/3 and the writer turn it back with another (operatorSpecifier.Term). "current_op/3
+// enumerates exactly the table" requires the two to be inverse: for every entry atom -> specifier of the forward
+// map, the reverse array maps that specifier to the same atom. (Both tables are read from their initialisers.)
+func ruleSpecTableInverse(c *Ctx, r *Report) {
+	const rule = "R-SPEC-TABLE-INVERSE"
+	desc := "the table from specifier atoms to specifiers and the one back are inverse"
+	fwd := c.global("operatorSpecifiers")
+	term := c.method("operatorSpecifier", "term")
+	if fwd == nil || term == nil {
+		r.undecided(rule, "anchor:operatorSpecifiers/operatorSpecifier.Term", "-", desc, "not found")
+		return
+	}
+	// forward: MapUpdate instructions on the global's map in the package initialiser: key = load of an atom global
+	forward := map[string]int64{} // atom global name -> specifier value
+	for _, fn := range c.LibFuncs() {
+		if !isInitFn(fn) {
+			continue
+		}
+		eachInstr(fn, func(in ssa.Instruction) {
+			mu, ok := in.(*ssa.MapUpdate)
+			if !ok {
+				return
+			}
+			stored := false
+			for _, ref := range *mu.Map.Referrers() {
+				if st, ok := ref.(*ssa.Store); ok && st.Addr == ssa.Value(fwd) {
+					stored = true
+				}
+			}
+			if !stored {
+				return
+			}
+			ld, ok := mu.Key.(*ssa.UnOp)
+			if !ok {
+				return
+			}
+			g, ok := ld.X.(*ssa.Global)
+			if !ok {
+				return
+			}
+			if v, ok := constInt(mu.Value); ok {
+				forward[c.stableGlobalName(g)] = v
+			}
+		})
+	}
+	// reverse: the array literal in Term(): stores of loads of atom globals at constant indices
+	reverse := map[int64]string{}
+	eachInstr(term, func(in ssa.Instruction) {
+		st, ok := in.(*ssa.Store)
+		if !ok {
+			return
+		}
+		ia, ok := st.Addr.(*ssa.IndexAddr)
+		if !ok {
+			return
+		}
+		idx, ok := constInt(ia.Index)
+		if !ok {
+			return
+		}
+		v := st.Val
+		if mi, ok := v.(*ssa.MakeInterface); ok {
+			v = mi.X
+		}
+		if ld, ok := v.(*ssa.UnOp); ok && ld.Op == token.MUL {
+			if g, ok := ld.X.(*ssa.Global); ok {
+				reverse[idx] = c.stableGlobalName(g)
+			}
+		}
+	})
+	if len(forward) == 0 || len(reverse) == 0 {
+		r.undecided(rule, "tables", c.Pos(fwd.Pos()), desc, fmt.Sprintf("could not read the tables (forward %d entries, reverse %d)", len(forward), len(reverse)))
+		return
+	}
+	var names []string
+	for a := range forward {
+		names = append(names, a)
+	}
+	sort.Strings(names)
+	for _, a := range names {
+		key := "operatorSpecifiers[" + a + "]"
+		if back, ok := reverse[forward[a]]; ok && back == a {
+			r.ok(rule, key, c.Pos(fwd.Pos()), desc, "maps to a specifier that maps back to it", true)
+		} else {
+			r.bad(rule, key, c.Pos(fwd.Pos()), desc, fmt.Sprintf("%s maps to a specifier whose atom is %q: op/3 stores another specifier than the one it was given, and current_op/3 reports that one", a, reverse[forward[a]]))
+		}
+	}
+}
